@@ -86,6 +86,8 @@ add("C04",
 
 # ---------------------------------------------------------------- C11
 add("C11",
+    V("table-scan-last-match-wins", "C11", [("dateparser/utils/__init__.py", "    for name, info in _tz_offsets:\n        if info[\"regex\"].search(\" %s\" % offset_or_timezone_abb):\n            tz = StaticTzInfo(name, info[\"offset\"])\n            return utc_datetime.astimezone(tz)\n", "    tz = None\n    for name, info in _tz_offsets:\n        if info[\"regex\"].search(\" %s\" % offset_or_timezone_abb):\n            tz = StaticTzInfo(name, info[\"offset\"])\n    if tz is not None:\n        return utc_datetime.astimezone(tz)\n")], "fire", "C11.R8", note="seeded change C12-6: TO_TIMEZONE='UTC+05:45' converts to UTC"),
+    V("twin-table-scan-single-exit-with-break", "C11", [("dateparser/utils/__init__.py", "    for name, info in _tz_offsets:\n        if info[\"regex\"].search(\" %s\" % offset_or_timezone_abb):\n            tz = StaticTzInfo(name, info[\"offset\"])\n            return utc_datetime.astimezone(tz)\n", "    tz = None\n    for name, info in _tz_offsets:\n        if info[\"regex\"].search(\" %s\" % offset_or_timezone_abb):\n            tz = StaticTzInfo(name, info[\"offset\"])\n            break\n    if tz is not None:\n        return utc_datetime.astimezone(tz)\n")], "silent"),
     V("prefilter-case-sensitive", "C11", [(TZP, "    if _search_regex_ignorecase.search(date_string):", "    if _search_regex.search(date_string):")], "fire", "C11.R2"),
     V("span-eats-leading-char", "C11", [(TZP, "date_string[: start + 1] + date_string[stop:]", "date_string[:start] + date_string[stop:]")], "fire", "C11.R3"),
     V("getinitargs-swapped", "C11", [(TZP, "        return self.__name, self.__offset", "        return self.__offset, self.__name")], "fire", "C11.R4"),
@@ -97,6 +99,8 @@ add("C11",
 
 # ---------------------------------------------------------------- C12
 add("C12",
+    V("table-scan-last-match-wins", "C12", [("dateparser/utils/__init__.py", "    for name, info in _tz_offsets:\n        if info[\"regex\"].search(\" %s\" % offset_or_timezone_abb):\n            tz = StaticTzInfo(name, info[\"offset\"])\n            return utc_datetime.astimezone(tz)\n", "    tz = None\n    for name, info in _tz_offsets:\n        if info[\"regex\"].search(\" %s\" % offset_or_timezone_abb):\n            tz = StaticTzInfo(name, info[\"offset\"])\n    if tz is not None:\n        return utc_datetime.astimezone(tz)\n")], "fire", "C12.R5", note="seeded change C12-6: TO_TIMEZONE='UTC+05:45' converts to UTC"),
+    V("twin-table-scan-single-exit-with-break", "C12", [("dateparser/utils/__init__.py", "    for name, info in _tz_offsets:\n        if info[\"regex\"].search(\" %s\" % offset_or_timezone_abb):\n            tz = StaticTzInfo(name, info[\"offset\"])\n            return utc_datetime.astimezone(tz)\n", "    tz = None\n    for name, info in _tz_offsets:\n        if info[\"regex\"].search(\" %s\" % offset_or_timezone_abb):\n            tz = StaticTzInfo(name, info[\"offset\"])\n            break\n    if tz is not None:\n        return utc_datetime.astimezone(tz)\n")], "silent"),
     V("year-default-after-zone-application", "C12", [(DATE, "            if \"year\" in missing_parts:\n                today = datetime.today()\n                date_obj = date_obj.replace(year=today.year)\n\n            try:\n                date_obj = apply_timezone_from_settings(date_obj, settings)\n            except OverflowError:\n                continue\n\n", "            try:\n                date_obj = apply_timezone_from_settings(date_obj, settings)\n            except OverflowError:\n                continue\n\n            if \"year\" in missing_parts:\n                today = datetime.today()\n                date_obj = date_obj.replace(year=today.year)\n\n")], "fire", "C12.R4",
       note="seeded change C12-3: the zone is chosen for year 1900 (LMT offsets) and kept when the year is replaced"),
     V("strip-ignores-string-zone", "C12", [(DP, '            and "default" == settings.RETURN_AS_TIMEZONE_AWARE\n            and not ptz\n', '            and "default" == settings.RETURN_AS_TIMEZONE_AWARE\n')], "fire", "C12.R1"),
